@@ -5,6 +5,7 @@ import (
 	"errors"
 	"fmt"
 	"go/format"
+	"html"
 	"io"
 	"strings"
 	"unicode"
@@ -805,7 +806,12 @@ func (ca ConstantAttribute) String() string {
 	if ca.SingleQuote {
 		quote = `'`
 	}
-	return ca.Name + `=` + quote + ca.Value + quote
+	value := ca.Value
+	if html.UnescapeString(value) != value || strings.Contains(value, quote) {
+		value = strings.ReplaceAll(value, "&", "&amp;")
+		value = strings.ReplaceAll(value, quote, map[string]string{`"`: "&#34;", `'`: "&#39;"}[quote])
+	}
+	return ca.Name + `=` + quote + value + quote
 }
 
 func (ca ConstantAttribute) Write(w io.Writer, indent int) error {
